@@ -8,8 +8,13 @@ CONSTANTS
   CacheKey = "full"
   PoolMax = 2
   Slots = 2
+  Configs <- CfgXsb
+  MergeInPlace = FALSE
+  BufPool = FALSE
+  TrackNeg = FALSE
+  Once = FALSE
 INIT Init
 NEXT Next
 VIEW view
 CHECK_DEADLOCK FALSE
-INVARIANTS TypeOK OwnParams Isolation ApqOnlyHashOnly CacheTransparent PoolClean
+INVARIANTS TypeOK OwnParams Isolation WriteOwn ConfigImmutable ApqOnlyHashOnly CacheTransparent PoolClean
